@@ -357,6 +357,15 @@ namespace verif
         }
         logged_blocks(logged_blocks&&) noexcept            = default;
         logged_blocks& operator=(logged_blocks&&) noexcept = default;
+        // swap as a user of the plain source gets it: through the source's own swap (found by ADL) where it has one -
+        // std::swap on the wrapper would go through move construction and assignment instead
+        friend void swap(logged_blocks& a, logged_blocks& b) noexcept
+        {
+            using std::swap;
+            swap(static_cast<BlockAlloc&>(a), static_cast<BlockAlloc&>(b));
+            swap(a.src_, b.src_);
+            swap(a.range_, b.range_);
+        }
 
         auto allocate_block() -> decltype(std::declval<BlockAlloc&>().allocate_block())
         {
